@@ -399,8 +399,16 @@ impl<K: BoolKind> Hist<K> {
                     fs.push(self.pool[idx].f.clone());
                     ts.push(self.pool[idx].t);
                 }
-                let s = Subst::new(vs.clone(), fs);
                 let slot = (*slot as usize) % self.substs.len();
+                // odd slots: the substitution object (and with it its id) is created on a
+                // freshly spawned thread, so alternating slots mixes ids handed out to
+                // different threads
+                let s = if slot % 2 == 1 {
+                    let vs2 = vs.clone();
+                    std::thread::scope(|sc| sc.spawn(move || Subst::new(vs2, fs)).join().unwrap())
+                } else {
+                    Subst::new(vs.clone(), fs)
+                };
                 self.substs[slot] = Some((s, vs, ts, 0));
             }
             Op::Subst(slot, a) => {
